@@ -1022,7 +1022,7 @@ def gen_par_jobs(seed, njobs, family, nrounds=3):
     rng = random.Random(seed)
     jobs = []
     base = {"pardag": "dur", "parfix": "fix", "parfb": "fb", "parpcycle": "pcycle", "parintern": "churn",
-            "parstruct": "struct", "parcancel": "dur", "parwrite": "dur", "parwritefix": "fix", "parwritenest": "fix", "parcancelfix": "fix", "parcancelnest": "fix", "parnest3": "fix", "parpaniccancel": "fix", "parlru": "lru", "parpanic": "dur", "parmemo": "struct", "paralloc": "struct"}[family]
+            "parstruct": "struct", "parcancel": "dur", "parwrite": "dur", "parwritefix": "fix", "parwritenest": "fix", "parcancelfix": "fix", "parcancelnest": "fix", "parnest3": "fix", "parpaniccancel": "fix", "parlru": "lru", "parcancelacc": "accum", "parpanic": "dur", "parmemo": "struct", "paralloc": "struct"}[family]
     for n in range(njobs):
         if family == "paralloc":
             # C24: concurrent creation of inputs, interned values and tracked structs across page boundaries (128 slots)
@@ -1163,12 +1163,23 @@ def gen_par_jobs(seed, njobs, family, nrounds=3):
                     writer_after = rng.choice([4, 8, 12, 16, 20, 25, 30, 40, 50])
                 for th in threads:
                     th += [{"op": "get", "f": rng.randrange(nfn) + 1} for _ in range(rng.choice([2, 4, 6]))]
-            if family in ("parcancel", "parcancelfix", "parcancelnest", "parpaniccancel"):
-                for _ in range(rng.choice([1, 1, 2]) if family not in ("parcancelnest", "parpaniccancel") else rng.choice([2, 3])):
-                    cancels.append([rng.randrange(nthreads) + 1, rng.choice([1, 4, 8, 15, 25, 40])])
+            if family in ("parcancel", "parcancelfix", "parcancelnest", "parpaniccancel", "parcancelacc"):
+                ncanc = rng.choice([1, 1, 2]) if family not in ("parcancelnest", "parpaniccancel") else rng.choice([2, 3])
+                if family == "parcancelacc":
+                    ncanc = rng.choice([4, 5, 6])
+                for _ in range(ncanc):
+                    cancels.append([rng.randrange(nthreads) + 1,
+                                    rng.choice([1, 4, 8, 15, 25, 40] if family != "parcancelacc" else [2, 4, 6, 9, 12, 16, 20, 26, 34, 44])])
                 for th in threads:
-                    th += [{"op": "get", "f": rng.randrange(nfn) + 1} for _ in range(rng.choice([1, 2, 3]))]
+                    th += [{"op": "get", "f": rng.randrange(nfn) + 1}
+                           for _ in range(rng.choice([1, 2, 3]) if family != "parcancelacc" else rng.choice([4, 6, 8]))]
             keeprev = bool(writer) and writer[0]["op"] in ("evict", "lru")
+            if family == "parwritenest" and r == 1 and rng.random() < 0.35:
+                keeprev = True
+                # the cancellation count of a revision is a u8: 256 revision-preserving writes make it wrap
+                # (salsa then starts a new revision); the concurrent write of this round follows them
+                pre = pre + [{"op": "evict"} for _ in range(256)]
+                writer = [{"op": "evict"}]
             rounds.append({"pre": pre, "threads": threads, "writer": writer, "cancels": cancels, "writer_after": writer_after})
         jobs.append({"id": n + 1, "prog": prog, "hist": [], "inject": 0, "seed": seed * 100003 + n, "mode": family,
                      "rounds": rounds, "jitter": rng.choice([0, 50, 200, 500]) if family != "parnest3" else rng.choice([20, 100, 300, 600])})
